@@ -282,7 +282,8 @@ def run(ctx, rep):
                if okall else "; ".join(why) or "the proxy does not come from the cache", ctx.loc(n))
 
     # ------------------------------------------------------------------ R03.5
-    K.share(ctx, rep, "c10", lambda o: o.rule in ("R10.1", "R10.2", "R10.3", "R10.4"), "R03.5", floor=10)
+    K.share(ctx, rep, "c10", lambda o: o.rule in ("R10.1", "R10.2", "R10.3", "R10.4") or
+            (o.rule == "R10.9" and "_proxy_cache is used only by" in o.key), "R03.5", floor=10)
 
     # ------------------------------------------------------------------ R03.6
     for q in ("rpyc.lib.get_id_pack", K.CONN + "._box", K.CONN + "._unbox", K.CONN + "._netref_factory",
